@@ -32,8 +32,27 @@ debug-assertions = true
 overflow-checks = true
 incremental = false
 
+[profile.release]
+opt-level = 1
+debug = 0
+debug-assertions = false
+overflow-checks = false
+incremental = false
+
 [workspace]
 """
+
+# "dev" (debug assertions + overflow checks) or "release" (neither): which build of konst *and of the generated
+# program* an engine run uses; set by /verif/check from the step description
+PROFILE = "dev"
+
+
+def _rel():
+    return ["--release"] if PROFILE == "release" else []
+
+
+def _tdir():
+    return "release" if PROFILE == "release" else "debug"
 
 
 def sh(cmd, cwd=None, timeout=1800, env=None):
@@ -85,18 +104,18 @@ def remove_bins(prefix):
 
 def build_bin(name, timeout=1800):
     """returns (ok, output)"""
-    rc, out, dt = sh(["cargo", "build", "--offline", "--bin", name], cwd=CRATE, timeout=timeout)
+    rc, out, dt = sh(["cargo", "build", "--offline", "--bin", name] + _rel(), cwd=CRATE, timeout=timeout)
     return rc == 0, out
 
 
 def build_lib(timeout=1800):
     prepare_crate()
-    rc, out, dt = sh(["cargo", "build", "--offline", "--lib"], cwd=CRATE, timeout=timeout)
+    rc, out, dt = sh(["cargo", "build", "--offline", "--lib"] + _rel(), cwd=CRATE, timeout=timeout)
     return rc == 0, out
 
 
 def run_bin(name, args=(), timeout=900, env=None):
-    exe = os.path.join(CRATE, "target", "debug", name)
+    exe = os.path.join(CRATE, "target", _tdir(), name)
     e = dict(ENV)
     if env:
         e.update(env)
@@ -104,7 +123,7 @@ def run_bin(name, args=(), timeout=900, env=None):
 
 
 def deps_dir():
-    return os.path.join(CRATE, "target", "debug", "deps")
+    return os.path.join(CRATE, "target", _tdir(), "deps")
 
 
 def konst_rlib():
@@ -131,6 +150,8 @@ def rustc_verdicts(sources, jobs=16, timeout=120, extra=()):
         cmd = ["rustc", "--edition", "2021", "--crate-type", "lib", "--emit=metadata", "-A", "warnings",
                "--extern", "konst=" + rlib, "-L", "dependency=" + deps_dir(),
                "-o", os.path.join(work, "p%05d.rmeta" % i), path] + list(extra)
+        if PROFILE == "release":
+            cmd += ["-C", "debug-assertions=off", "-C", "overflow-checks=off"]
         rc, out, dt = sh(cmd, timeout=timeout)
         return rc, out
 
@@ -140,6 +161,7 @@ def rustc_verdicts(sources, jobs=16, timeout=120, extra=()):
 
 def save_replay(prop, engine, name, body):
     os.makedirs(os.path.join(VERIF, "replays"), exist_ok=True)
+    body = dict(body, profile=PROFILE)
     text = json.dumps(body, indent=1, ensure_ascii=False, sort_keys=True)
     h = hashlib.sha1(text.encode("utf8")).hexdigest()[:8]
     path = os.path.join(VERIF, "replays", "%s-%s-%s-%s.json" % (prop, engine, name, h))
@@ -187,8 +209,9 @@ def write_evidence(out, prop, engine, tier, seed, wall, evaluations, nontrivial,
         cov["disagreements_checked"] = int(violations)
     if extra:
         cov.update(extra)
+    cov["build_profile"] = "release: no debug assertions, no overflow checks, opt-level 1" if PROFILE == "release" else "dev: debug assertions and overflow checks on"
     ev = {
-        "property_id": prop, "engine": engine, "tier": tier, "seed": int(seed), "level": "exploration",
+        "property_id": prop, "engine": engine + ("-release" if PROFILE == "release" else ""), "tier": tier, "seed": int(seed), "level": "exploration",
         "coverage": cov, "assumptions": list(assumptions), "wall_s": round(wall, 2), "violations": int(violations),
     }
     os.makedirs(os.path.dirname(out), exist_ok=True)
